@@ -205,7 +205,8 @@ theorem applyOp_db {Q : DB → Prop} (h : DbInv Q) (s : Sess) (op : Op) (hs : Q 
   case meltQuote inv unitSat mpp =>
     have := Sess.runPM_db h s (requestMeltQuote (cxOf s) s.w.nextMeltQ inv (invMsat s.w.ln) unitSat mpp) [] hs
     split <;> simp_all
-  case melt => exact Sess.runPM_db h s _ _ hs
+  case melt q ps script lnFail =>
+    exact Sess.runPM_db h { s with w := { s.w with ln := { s.w.ln with failInvoiceStatus := if lnFail then 1 else 0 } } } _ _ hs
   case meltState => exact Sess.runPM_db h s _ _ hs
   case checkState => exact Sess.runPM_db h s _ _ hs
   case restore => exact Sess.runPM_db h s _ _ hs
